@@ -341,7 +341,10 @@ class MLink(_El):
     def set_effective(self, st, variant=0):
         """make `status` read st; the definition field initial_status is set to the opposite on purpose"""
         LS = self._LS
-        if st == LS.Closed and variant:
+        if variant == 2:
+            # the status as a control action with a plain number leaves it: ControlAction(link, 'status', 0) stores the int itself in _user_status
+            self._user_status, self._internal_status = int(st), LS.Active
+        elif st == LS.Closed and variant:
             self._user_status, self._internal_status = LS.Open, LS.Closed
         else:
             self._user_status, self._internal_status = st, LS.Active
@@ -393,7 +396,9 @@ class MValve(MLink):
 
     def set_effective(self, st, variant=0):
         LS = self._LS
-        if st == LS.Active:
+        if variant == 2:
+            self._user_status, self._internal_status = int(st), LS.Active
+        elif st == LS.Active:
             self._user_status, self._internal_status = LS.Active, LS.Active
         elif st == LS.Closed and variant:
             self._user_status, self._internal_status = LS.Active, LS.Closed
@@ -675,14 +680,14 @@ def make_world(repo, LS, extra=None):
 NODES = [("J1", "junction", 10.0), ("R1", "reservoir", 50.0), ("J2", "junction", 11.0), ("J3", "junction", 12.0), ("T1", "tank", 40.0), ("J4", "junction", 13.0),
          ("J5", "junction", 14.0), ("J6", "junction", 15.0), ("J7", "junction", 16.0), ("J8", "junction", 17.0), ("J9", "junction", 18.0), ("J10", "junction", 19.0),
          ("JL", "junction", 20.0)]
-LINKS = [("P1", "pipe", "R1", "J1", "Open", 0), ("P2", "pipe", "J1", "J2", "Closed", 1), ("P3", "pipe", "J2", "J3", "Open", 0), ("PU1", "head_pump", "T1", "J3", "Closed", 0),
+LINKS = [("P1", "pipe", "R1", "J1", "Open", 0), ("P2", "pipe", "J1", "J2", "Closed", 1), ("P3", "pipe", "J2", "J3", "Open", 2), ("PU1", "head_pump", "T1", "J3", "Closed", 0),
          ("P4", "pipe", "J1", "J4", "Closed", 0), ("P5", "pipe", "J4", "J1", "Open", 0), ("V1", "prv", "J4", "J5", "Active", 0), ("P6", "pipe", "J4", "J5", "Closed", 0),
          ("P7", "pipe", "J6", "J5", "Closed", 0), ("P8", "pipe", "J5", "J6", "Closed", 1), ("P9", "pipe", "J7", "J1", "Open", 0), ("P10", "pipe", "J1", "J7", "Closed", 0),
-         ("P11", "pipe", "J7", "J8", "Closed", 0), ("P12", "pipe", "J7", "J8", "Closed", 1), ("P13", "pipe", "J8", "J7", "Open", 0), ("PU2", "power_pump", "J8", "J9", "Open", 0),
+         ("P11", "pipe", "J7", "J8", "Closed", 2), ("P12", "pipe", "J7", "J8", "Closed", 1), ("P13", "pipe", "J8", "J7", "Open", 0), ("PU2", "power_pump", "J8", "J9", "Open", 0),
          ("V2", "tcv", "J3", "J2", "Closed", 1), ("V3", "fcv", "J9", "J10", "Open", 0)]
 #  rounds of status changes (link, new status, variant) applied between searches; plus changes that are not status changes of links
 ROUNDS = [
-    [("PU1", "Open", 0), ("P1", "Closed", 1), ("P5", "Closed", 0), ("P4", "Open", 0), ("V1", "Closed", 1), ("P7", "Open", 0), ("V2", "Active", 0), ("P3", "Closed", 0)],
+    [("PU1", "Open", 0), ("P1", "Closed", 1), ("P5", "Closed", 2), ("P4", "Open", 0), ("V1", "Closed", 1), ("P7", "Open", 0), ("V2", "Active", 0), ("P3", "Closed", 0)],
     [("P1", "Open", 0), ("PU1", "Closed", 1), ("V1", "Active", 0), ("P11", "Open", 0), ("P13", "Closed", 0), ("V2", "Closed", 1), ("P3", "Open", 0)],
 ]
 #  generated rounds: every link toggled ALONE (closed <-> not closed) twice over, so that every member of every multi-link node pair changes while its
@@ -692,7 +697,7 @@ def _generated_rounds():
     names = [l[0] for l in LINKS]
     for rep in range(2):
         for k, nm in enumerate(names if rep == 0 else names[::-1]):
-            out.append([(nm, "toggle", (k + rep) % 2)])
+            out.append([(nm, "toggle", (k + rep) % 3)])
     x = 12345
     for r in range(14):
         pick = []
@@ -700,13 +705,13 @@ def _generated_rounds():
             x = (1103515245 * x + 12345) % (2 ** 31)
             nm = names[(x >> 8) % len(names)]
             if nm not in [p_[0] for p_ in pick]:
-                pick.append((nm, "toggle", (x >> 4) % 2))
+                pick.append((nm, "toggle", (x >> 4) % 3))
         out.append(pick)
     return out
 
 
 #  statuses found by a second run on the same simulator: the definition state again, plus edits made while paused
-RESET_EDITS = [("P2", "Open", 0), ("P1", "Closed", 0), ("P6", "Open", 0), ("V1", "Closed", 0), ("P9", "Closed", 1), ("P10", "Open", 0)]
+RESET_EDITS = [("P2", "Open", 0), ("P1", "Closed", 2), ("P6", "Open", 2), ("V1", "Closed", 0), ("P9", "Closed", 1), ("P10", "Open", 0), ("P13", "Closed", 2)]
 OTHER_CHANGES = [("V1", "setting"), ("J1", "leak_status"), ("T1", "leak_status"), ("PU2", "base_speed")]
 
 
@@ -868,7 +873,7 @@ def graph_facts(wn, n2i, snap):
         if got != (exp, exp):
             dirs = {(l.start_node_name, l.end_node_name) for l in ls}
             cat = "single" if len(ls) == 1 else ("same" if len(dirs) == 1 else "opposite")
-            desc = ", ".join("%s %s->%s %s%s%s" % (l.name, l.start_node_name, l.end_node_name, l.status.name,
+            desc = ", ".join("%s %s->%s %s%s%s" % (l.name, l.start_node_name, l.end_node_name, getattr(l.status, "name", "the plain number %r" % (l.status,)),
                                                    " (stale _is_isolated flag)" if l._is_isolated else "",
                                                    " (initial_status %s)" % l.initial_status.name if l.initial_status != l.status else "") for l in ls)
             out[cat].append("%s-%s: graph says %s->%s %s, %s->%s %s, expected %s [%s]" % (a, b, a, b, "connected" if got[0] else "cut", b, a,
